@@ -814,7 +814,7 @@ def table_problems(faces, nverts, closed):
         if badu:
             probs.append(("an edge of the closed shape is not shared by exactly two faces", f"{badu}"))
         used = {v for f in faces for v in f}
-        if used != set(range(nverts)):
+        if set(range(nverts)) - used:
             probs.append(("a vertex of the closed shape is not referenced by any face", f"unused {sorted(set(range(nverts)) - used)}"))
         chi = nverts - len(und) + len(faces)
         if not badu and chi != 2:
